@@ -71,19 +71,21 @@ Proof.
 Qed.
 
 (** the result of the split does not depend on the fuel once it covers the text (non-empty special token) *)
+Lemma index_of_nil sp : sp <> [] -> index_of [] sp = None.
+Proof. intros H. destruct sp; [congruence|reflexivity]. Qed.
+
 Lemma split_one_fuel sp id f1 f2 t :
   sp <> [] -> (length t <= f1)%nat -> (length t <= f2)%nat -> split_one f1 sp id t = split_one f2 sp id t.
 Proof.
   intros Hne. revert f2 t. induction f1 as [|f1 IH]; intros f2 t H1 H2.
-  - destruct t; [|cbn in H1; lia]. destruct f2; cbn [split_one]; destruct (index_of [] sp) as [i|] eqn:E; try reflexivity;
-      apply index_of_split in E as [E _]; destruct (firstn i []); destruct sp; try congruence; discriminate.
+  - destruct t; [|cbn in H1; lia]. destruct f2; cbn [split_one]; rewrite index_of_nil by exact Hne; reflexivity.
   - destruct f2 as [|f2].
-    + destruct t; [|cbn in H2; lia]. cbn [split_one]. destruct (index_of [] sp) as [i|] eqn:E; try reflexivity.
-      apply index_of_split in E as [E _]. destruct (firstn i []); destruct sp; try congruence; discriminate.
+    + destruct t; [|cbn in H2; lia]. cbn [split_one]. rewrite index_of_nil by exact Hne. reflexivity.
     + cbn [split_one]. destruct (index_of t sp) as [i|] eqn:E; [|reflexivity]. f_equal. f_equal.
       destruct (skipn (i + length sp) t) eqn:Er; [reflexivity|]. rewrite <- Er.
       assert (Hl : (length (skipn (i + length sp) t) < length t)%nat).
-      { rewrite skipn_length. apply index_of_split in E as [_ E]. destruct sp; [congruence|]. cbn [length]. destruct t; [cbn in E|cbn [length]]; lia. }
+      { rewrite skipn_length. apply index_of_split in E as [_ E]. destruct sp; [congruence|]. cbn [length].
+        destruct t; [cbn in Er; destruct (i + _)%nat; discriminate|cbn [length]; lia]. }
       apply IH; lia.
 Qed.
 
